@@ -109,7 +109,52 @@ def dense_ham(desc):
     return h * (nrm / n2)
 
 
-def make_ham(Hd, rep, real_dtype=False):
+DENSE_LAYOUTS = ("C", "F", "H", "T", "strided", "rev")
+
+
+def lay_out(x, layout):
+    """The same matrix entries in another memory layout (the result may only depend on the entries)."""
+    x = np.array(x, order="C")
+    if layout == "C":
+        y = x
+    elif layout == "F":  # column major, owning
+        y = np.asfortranarray(x)
+    elif x.ndim == 1:
+        if layout == "strided":
+            big = np.zeros(2 * x.shape[0] + 1, dtype=x.dtype)
+            big[1::2] = x
+            y = big[1::2]
+        elif layout == "rev":
+            y = np.ascontiguousarray(x[::-1])[::-1]
+        else:
+            y = x
+    elif layout == "H":  # what ``rho.H`` / ``qu.dag`` of a row major array hands back: conjugated copy, transposed view
+        y = np.ascontiguousarray(x.conj().T).conj().T
+    elif layout == "T":  # transposed view of a row major array
+        y = np.ascontiguousarray(x.T).T
+    elif layout == "strided":  # non contiguous view into a larger buffer
+        big = np.zeros((2 * x.shape[0] + 1, 2 * x.shape[1] + 1), dtype=x.dtype)
+        big[1::2, 1::2] = x
+        y = big[1::2, 1::2]
+    elif layout == "rev":  # negative strides
+        y = np.ascontiguousarray(x[::-1, ::-1])[::-1, ::-1]
+    else:
+        raise AssertionError(layout)
+    if y.shape != x.shape or not np.array_equal(y, x):
+        raise HarnessError(f"layout {layout} changed the entries")
+    return y
+
+
+def as_container(v, container):
+    import quimb as qu
+
+    if container == "ndarray":
+        return v
+    q = v.view(qu.qarray) if v.ndim == 2 else v
+    return q
+
+
+def make_ham(Hd, rep, real_dtype=False, layout="C", container="qarray"):
     """The object handed to Evolution for a time independent Hamiltonian."""
     import quimb as qu
     import scipy.sparse.linalg as spla
@@ -122,21 +167,25 @@ def make_ham(Hd, rep, real_dtype=False):
     if real_dtype and float(np.max(np.abs(Hd.imag))) == 0.0:
         kw["dtype"] = float
         Hin = Hd.real
+
+    def dense(x=None):
+        return as_container(lay_out(Hin if x is None else x, layout), container)
+
     if rep == "dense":
-        return qu.qu(Hin, **kw)
+        return dense()
     if rep == "sparse":
         return qu.qu(Hin, sparse=True, **kw)
-    if rep == "csc":
-        return qu.qu(Hin, sparse=True, stype="csc", **kw)
+    if rep in ("csc", "coo", "bsr"):
+        return qu.qu(Hin, sparse=True, stype=rep, **kw)
     if rep in ("tuple", "tuple_nd"):
         el, ev = np.linalg.eigh(Hd)
-        return (el, qu.qu(ev) if rep == "tuple" else ev)
+        return (el, as_container(lay_out(ev, layout), "qarray" if rep == "tuple" else "ndarray"))
     if rep == "linop":
-        return spla.aslinearoperator(np.array(Hin))
+        return spla.aslinearoperator(lay_out(Hin, layout))
     if rep == "linop_sparse":
         return spla.aslinearoperator(qu.qu(Hin, sparse=True, **kw))
     if rep == "callable":
-        H = qu.qu(Hin, **kw)
+        H = dense()
         return lambda t: H
     if rep == "callable_sparse":
         H = qu.qu(Hin, sparse=True, **kw)
@@ -150,16 +199,43 @@ def dense_state(desc, d):
     return A.rand_rho(desc["seed"], d, rank=int(desc.get("rank") or d)).astype(complex)
 
 
-def make_state(p0, form):
+def make_state(p0, form, layout="C", container="qarray", stype="csr"):
     import quimb as qu
 
     if form == "dense":
-        return qu.qu(p0)
+        return as_container(lay_out(p0, layout), container)
     if form == "sparse":
-        return qu.qu(p0, sparse=True)
+        return qu.qu(p0, sparse=True, stype=stype)
     if form == "1d":
-        return np.array(p0).reshape(-1)
+        return lay_out(np.array(p0).reshape(-1), layout)
     raise AssertionError(form)
+
+
+STRETCH = 0.4
+
+
+def state_object(p0, sd, Hd=None, t0=0.0):
+    """(object handed to Evolution, dense reference of its entries) for a state description.
+
+    form 'stretch': the state is the ``pt`` handed back by an earlier Evolution of another method that ran from
+    t0 - 0.4 to t0 (started from the exactly back-propagated p0); the reference is whatever entries that object
+    holds, so the stretch's own (separately checked) error does not enter."""
+    import quimb as qu
+
+    form = sd["form"]
+    if form != "stretch":
+        obj = make_state(p0, form, sd.get("layout", "C"), sd.get("container", "qarray"), sd.get("stype", "csr"))
+        return obj, p0
+    start = propagate(Hd, p0, -STRETCH)
+    first = qu.Evolution(qu.qu(start), qu.qu(Hd), t0=float(t0) - STRETCH, method=sd["stretch"])
+    first.update_to(float(t0))
+    obj = first.pt
+    ref = to_dense(obj)
+    e = rel_err(ref, p0, floor=float(np.linalg.norm(p0)))
+    if not e <= 1e-5:
+        raise Violation("state", err=e, tol=1e-5, where="first-stretch", method=sd["stretch"],
+                        state="ket" if p0.shape[1] == 1 else "dop", sform="dense", hrep="dense", d=p0.shape[0])
+    return obj, ref
 
 
 def to_dense(x):
@@ -475,6 +551,81 @@ def run_grid(case):
 
 
 # ---------------------------------------------------------------------------
+# 1b. exhaustive grid of memory layouts / containers: the result depends on the matrix entries only
+# ---------------------------------------------------------------------------
+
+L_STATES = ([{"form": "dense", "layout": l, "container": "qarray"} for l in DENSE_LAYOUTS]
+            + [{"form": "dense", "layout": l, "container": "ndarray"} for l in ("C", "F", "strided")]
+            + [{"form": "sparse", "stype": t} for t in ("csr", "csc", "coo", "bsr")]
+            + [{"form": "stretch", "stretch": m} for m in ("solve", "expm", "integrate")]
+            + [{"form": "1d", "layout": l} for l in ("C", "strided", "rev")])
+L_HAMS = ([("dense", l, "qarray") for l in DENSE_LAYOUTS] + [("dense", "F", "ndarray"), ("dense", "strided", "ndarray")]
+          + [(r, "C", "qarray") for r in ("sparse", "csc", "coo", "bsr")]
+          + [("tuple", "F", "qarray"), ("tuple", "strided", "qarray"), ("tuple_nd", "F", "qarray"), ("linop", "F", "qarray"),
+             ("linop", "strided", "qarray"), ("callable", "F", "qarray"), ("callable", "H", "qarray")])
+
+
+def enum_layouts(tier):
+    reps = 1 if tier == "quick" else 5
+    for (m, small), kind, si, hi, t0, r in itertools.product(G_METHODS, ("ket", "dop"), range(len(L_STATES)), range(len(L_HAMS)),
+                                                             (0.0, 0.7), range(reps)):
+        sd = dict(L_STATES[si])
+        hrep, hlay, hcont = L_HAMS[hi]
+        if sd["form"] == "1d" and kind == "dop":
+            continue
+        if m == "solve" and hcont == "ndarray" and hrep == "dense":
+            continue  # plain ndarray Hamiltonian + 'solve': outside the documented type (see ham_kwargs)
+        seed = zlib.crc32(f"L:{m}:{small}:{kind}:{si}:{hi}:{t0}:{r}".encode())
+        d = 4 if r == 0 else [2, 3, 5, 6, 8][(seed >> 3) % 5]
+        sd.update(kind=kind, seed=seed // 7, rank=1 + (seed >> 9) % d)
+        yield {"method": m, "small": small, "state": sd, "hrep": hrep, "t0": t0,
+               "ham": {"d": d, "kind": "cplx" if r == 0 else HKINDS[seed % len(HKINDS)], "seed": seed, "norm": HNORMS[(seed >> 5) % 3],
+                       "real_dtype": False, "layout": hlay, "container": hcont}}
+
+
+def run_layouts(case):
+    import quimb as qu
+
+    m, hrep, sd, hd = case["method"], case["hrep"], case["state"], case["ham"]
+    d, t0 = int(hd["d"]), float(case["t0"])
+    Hd = dense_ham(hd)
+    p0 = dense_state(sd, d)
+    meth_eff = "solve" if hrep.startswith("tuple") else m
+    sl, hl = layout_labels(sd, hd, hrep)
+    info = dict(method=m, state=sd["kind"], sform=sd["form"], hrep=hrep, d=d, slayout=sl, hlayout=hl)
+    if m == "integrate":
+        info["stepper"] = "dopri5" if case["small"] else "dop853"
+    sobj, p0 = state_object(p0, sd, Hd, t0)
+    ctx = Ctx(Hd, p0, t0, meth_eff, info)
+    gstate = {"dense": sd["kind"], "stretch": sd["kind"], "1d": "ket1d", "sparse": sd["kind"] + "_sp"}[sd["form"]]
+    pin = supported(m, gstate, hrep) and ham_pinned(hd, m, hrep)
+    ham = make_ham(Hd, hrep, **ham_kwargs(hd, m, hrep))
+    kw = {"int_small_step": True} if case["small"] else {}
+    cls = [f"m={m}" + ("/dopri5" if case["small"] else ""), f"s={sd['kind']}", f"sl={sl}", f"hl={hl}"]
+    first = True
+    try:
+        evo = qu.Evolution(sobj, ham, t0=t0, method=m, **kw)
+        ctx.check_time(evo.t, t0)
+        ctx.check(evo.pt, t0, "initial")
+        prev = None
+        for t in (t0 + 0.3, t0 + 0.3, t0 + 1.1):
+            evo.update_to(t)
+            first = False
+            ctx.check_time(evo.t, t, repeated=(prev == t))
+            ctx.check(evo.pt, t, "pt")
+            prev = t
+        for pt in evo.at_times([t0 + 1.5]):
+            ctx.check(pt, t0 + 1.5, "yield")
+    except _reject_types() as e:
+        if pin:
+            raise Violation("supported-rejected", exc=type(e).__name__, msg=str(e)[:80].replace("\n", " "),
+                            presolved=hrep.startswith("tuple"), **info) from e
+        return {"nt": False, "cls": cls + ["cell=rejected" if first else "cell=rejected-late", "rej=" + type(e).__name__], "err": ctx.err()}
+    nonreal = float(np.max(np.abs(p0.imag))) > 0 or float(np.max(np.abs(Hd.imag))) > 0
+    return {"nt": nonreal, "cls": cls + ["cell=ok"] + (["pinned"] if pin else ["unpinned-accepted"]), "err": ctx.err()}
+
+
+# ---------------------------------------------------------------------------
 # 2-4. histories of requested times: one machine per method
 # ---------------------------------------------------------------------------
 
@@ -484,20 +635,58 @@ S_T0 = st.one_of(st.sampled_from([0.0, 0.7, -0.7]), st.floats(-2.0, 2.0, allow_n
 BUDGET = 8.0  # bound on ||H|| * (t - t0) for the stepping methods
 
 
+S_LAYOUT = st.sampled_from(["C", "C", "F", "H", "T", "strided", "rev"])
+S_CONTAINER = st.sampled_from(["qarray", "qarray", "ndarray"])
+
+
 @st.composite
 def s_ham(draw, dmin=2, dmax=16):
     return {"d": draw(st.integers(dmin, dmax)), "kind": draw(st.sampled_from(HKINDS)), "seed": draw(A.seeds),
-            "norm": draw(st.sampled_from(HNORMS)), "real_dtype": draw(st.booleans())}
+            "norm": draw(st.sampled_from(HNORMS)), "real_dtype": draw(st.booleans()),
+            "layout": draw(S_LAYOUT), "container": draw(S_CONTAINER)}
+
+
+def ham_kwargs(hd, method, hrep):
+    """layout / container of the dense parts of a Hamiltonian description (old cases: row major qarray).
+    A plain ndarray is not given to 'solve' (documented type is a quimb operator; .toarray() is called on it)."""
+    cont = hd.get("container", "qarray")
+    if method == "solve" and not hrep.startswith("tuple"):
+        cont = "qarray"
+    return {"real_dtype": bool(hd.get("real_dtype")), "layout": hd.get("layout", "C"), "container": cont}
+
+
+def ham_pinned(hd, method, hrep):
+    return hrep not in ("coo", "bsr") and ham_kwargs(hd, method, hrep)["container"] == "qarray"
+
+
+def layout_labels(sd, hd, hrep):
+    f = sd["form"]
+    sl = {"dense": f"{sd.get('layout', 'C')}/{sd.get('container', 'qarray')}", "1d": "1d-" + sd.get("layout", "C"),
+          "sparse": sd.get("stype", "csr"), "stretch": "after-" + str(sd.get("stretch"))}[f]
+    hl = f"{hd.get('layout', 'C')}/{hd.get('container', 'qarray')}" if hrep in ("dense", "tuple", "tuple_nd", "linop", "callable") else hrep
+    return sl, hl
 
 
 @st.composite
-def s_state(draw, d, allow_sparse=True, kinds=("ket", "dop", "dop")):
+def s_state(draw, d, allow_sparse=True, kinds=("ket", "dop", "dop"), allow_stretch=True):
     kind = draw(st.sampled_from(kinds))
     forms = ["dense", "dense", "dense", "1d"] if kind == "ket" else ["dense", "dense", "dense"]
     if allow_sparse:
         forms.append("sparse")
+    if allow_stretch:
+        forms.append("stretch")
     rank = draw(st.sampled_from([1, 1, 2, d, max(1, d // 2)])) if kind == "dop" else 1
-    return {"kind": kind, "seed": draw(A.seeds), "rank": min(rank, d), "form": draw(st.sampled_from(forms))}
+    form = draw(st.sampled_from(forms))
+    sd = {"kind": kind, "seed": draw(A.seeds), "rank": min(rank, d), "form": form}
+    if form == "dense":
+        sd["layout"], sd["container"] = draw(S_LAYOUT), draw(S_CONTAINER)
+    elif form == "1d":
+        sd["layout"] = draw(st.sampled_from(["C", "strided", "rev"]))
+    elif form == "sparse":
+        sd["stype"] = draw(st.sampled_from(["csr", "csc", "coo", "bsr"]))
+    else:
+        sd["stretch"] = draw(st.sampled_from(["solve", "expm", "integrate"]))
+    return sd
 
 
 def s_init(method):
@@ -505,13 +694,13 @@ def s_init(method):
     def s(draw):
         ham = draw(s_ham())
         if method == "integrate":
-            hrep = draw(st.sampled_from(["dense", "sparse", "csc", "linop", "linop_sparse", "callable", "callable_sparse"]))
+            hrep = draw(st.sampled_from(["dense", "dense", "sparse", "csc", "coo", "bsr", "linop", "linop_sparse", "callable", "callable_sparse"]))
         elif method == "solve":
-            hrep = draw(st.sampled_from(["dense", "sparse", "csc", "tuple", "tuple_nd"]))
+            hrep = draw(st.sampled_from(["dense", "dense", "sparse", "csc", "coo", "bsr", "tuple", "tuple_nd"]))
         else:
-            hrep = draw(st.sampled_from(["dense", "sparse", "csc"]))
+            hrep = draw(st.sampled_from(["dense", "dense", "sparse", "csc", "coo", "bsr"]))
         # scipy's expm_multiply refuses a sparse state with a dense operator: pair by construction
-        allow_sparse = method != "expm" or hrep in ("sparse", "csc")
+        allow_sparse = method != "expm" or hrep in ("sparse", "csc", "coo", "bsr")
         init = {"ham": ham, "hrep": hrep, "state": draw(s_state(ham["d"], allow_sparse, ("ket", "ket", "dop") if method == "expm" else ("ket", "dop", "dop"))),
                 "t0": draw(S_T0),
                 "compute": draw(st.sampled_from(["none", "none", "single2", "single3", "dict"])), "method": method}
@@ -548,14 +737,16 @@ class Hist:
         self.t0 = float(init["t0"])
         hrep = init["hrep"]
         self.meth = "solve" if hrep.startswith("tuple") else m
-        info = dict(method=m, state=sd["kind"], sform=sd["form"], hrep=hrep, d=d)
+        sl, hl = layout_labels(sd, hd, hrep)
+        info = dict(method=m, state=sd["kind"], sform=sd["form"], hrep=hrep, d=d, slayout=sl, hlayout=hl)
         if m == "integrate":
             info["stepper"] = "dopri5" if init.get("small") else "dop853"
         self.info = info
+        self.sobj, self.p0 = state_object(self.p0, sd, self.Hd, self.t0)
         self.ctx = Ctx(self.Hd, self.p0, self.t0, self.meth, info)
-        self.pinned = sd["form"] != "sparse"
+        self.pinned = sd["form"] != "sparse" and ham_pinned(hd, m, hrep)
         self.rec = Recorder(init["compute"])
-        self.ham = make_ham(self.Hd, hrep, real_dtype=bool(hd.get("real_dtype")))
+        self.ham = make_ham(self.Hd, hrep, **ham_kwargs(hd, m, hrep))
         kw = {}
         if m == "integrate" and init.get("small"):
             kw["int_small_step"] = True
@@ -574,7 +765,7 @@ class Hist:
         self.nres = 0
         self.span = 0.0
         self.tmax = self.t0 + BUDGET / max(self.ctx.hnorm, 1e-9)
-        self.evo = self.guard(lambda: qu.Evolution(make_state(self.p0, sd["form"]), self.ham, t0=self.t0, method=m, **kw))
+        self.evo = self.guard(lambda: qu.Evolution(self.sobj, self.ham, t0=self.t0, method=m, **kw))
         if not self.dead:
             self.ctx.check_time(self.evo.t, self.t0)
             self.ctx.check(self.evo.pt, self.t0, "initial")
@@ -677,7 +868,8 @@ def inv_hist(h):
 def fin_hist(h):
     sd = h.init["state"]
     skind = "ket" if sd["kind"] == "ket" else ("dop-pure" if sd["rank"] == 1 else "dop-mixed")
-    cls = [f"s={skind}", f"form={sd['form']}", f"h={h.init['hrep']}", f"hk={h.init['ham']['kind']}", f"cb={h.init['compute']}",
+    sl, hl = layout_labels(sd, h.init["ham"], h.init["hrep"])
+    cls = [f"s={skind}", f"form={sd['form']}", f"sl={sl}", f"hl={hl}", f"h={h.init['hrep']}", f"hk={h.init['ham']['kind']}", f"cb={h.init['compute']}",
            "t0=0" if h.t0 == 0 else "t0!=0", f"m={h.init['method']}"] + (["progbar"] if h.init.get("progbar") else [])
     if h.init.get("small"):
         cls.append("dopri5")
@@ -796,10 +988,10 @@ def s_timedep(draw, tier):
                                 "norm": draw(st.sampled_from([0.3, 1.0])), "kind": draw(st.sampled_from(HKINDS))},
             "f": {"name": draw(st.sampled_from(["cos", "cos", "lin", "quad", "const"])), "a": draw(st.sampled_from([1.0, 0.5, -0.7])),
                   "w": draw(st.sampled_from([0.5, 1.3, 3.0]))},
-            "state": draw(s_state(d, allow_sparse=False)), "t0": draw(st.sampled_from([0.0, 0.7, -0.7])),
-            # strictly increasing times: an exactly repeated time is finding C18-b (seq_integrate)
-            "dts": draw(st.lists(st.sampled_from([1e-3, 0.01, 0.2, 0.5, 1.0]), min_size=1, max_size=4)),
+            "state": draw(s_state(d, allow_sparse=True, allow_stretch=False)), "t0": draw(st.sampled_from([0.0, 0.7, -0.7])),
+            "dts": draw(st.lists(st.sampled_from([0.0, 1e-3, 0.01, 0.2, 0.5, 1.0]), min_size=1, max_size=4)),
             "small": draw(st.booleans()), "ret": draw(st.sampled_from(["dense", "sparse"])),
+            "stype": draw(st.sampled_from(["csr", "csc", "coo", "bsr"])),
             "compute": draw(st.sampled_from(["none", "single2", "single3", "dict"])), "use_at_times": draw(st.booleans())}
 
 
@@ -833,19 +1025,24 @@ def run_timedep(case):
     # the steppers also have to resolve the time dependence itself: add its frequency max|f'|/max|f| to the rate
     wf = float(np.max(np.abs(np.gradient(fvals, tgrid)))) / fmax if fmax > 0 else 0.0
     sd = case["state"]
+    sl, hl = layout_labels(sd, hd, "dense" if case["ret"] == "dense" else case.get("stype", "csr"))
     info = dict(method="integrate", state=sd["kind"], sform=sd["form"], hrep="timedep-" + case["ret"], d=d,
-                stepper="dopri5" if case["small"] else "dop853")
+                stepper="dopri5" if case["small"] else "dop853", slayout=sl, hlayout=hl)
     ctx = Ctx(H0, p0, t0, "integrate", info, prop=lambda tt: apply_U(orc.U(tt), p0), hnorm=hbound, rate_extra=wf)
     sparse = case["ret"] == "sparse"
 
+    hlay, hcont = hd.get("layout", "C"), hd.get("container", "qarray")
+
     def ham(tt):
-        return qu.qu(orc.H(tt), sparse=sparse)
+        if sparse:
+            return qu.qu(orc.H(tt), sparse=True, stype=case.get("stype", "csr"))
+        return as_container(lay_out(orc.H(tt), hlay), hcont)
 
     rec = Recorder(case["compute"])
     kw = {}
     if rec.compute() is not None:
         kw["compute"] = rec.compute()
-    evo = qu.Evolution(make_state(p0, sd["form"]), ham, t0=t0, method="integrate", int_small_step=bool(case["small"]), **kw)
+    evo = qu.Evolution(state_object(p0, sd)[0], ham, t0=t0, method="integrate", int_small_step=bool(case["small"]), **kw)
     ctx.check_time(evo.t, t0)
     ctx.check(evo.pt, t0, "initial")
     nres, lo, prev = 0, t0, None
@@ -869,7 +1066,7 @@ def run_timedep(case):
     return {"nt": span >= 0.05 and case["f"]["name"] != "const",
             "cls": [f"f={case['f']['name']}", "commuting" if commuting else "generic", f"s={sd['kind']}", f"ret={case['ret']}",
                     info["stepper"], f"cb={case['compute']}", "t0=0" if t0 == 0 else "t0!=0", "at_times" if it is not None else "update_to",
-                    "span>=1" if span >= 1 else "span<1"], "err": ctx.err()}
+                    "span>=1" if span >= 1 else "span<1", f"sl={sl}", f"hl={hl}"], "err": ctx.err()}
 
 
 # ---------------------------------------------------------------------------
@@ -879,19 +1076,11 @@ def run_timedep(case):
 @st.composite
 def s_callbacks(draw, tier):
     method = draw(st.sampled_from(["integrate", "solve", "expm"]))
-    ham = draw(s_ham(3 if method == "solve" else 2, 12))  # 2x2 + 'solve' is finding C18-c (grid / seq_solve)
+    ham = draw(s_ham(2, 12))
     reps = {"integrate": ["dense", "sparse", "linop", "callable"], "solve": ["dense", "sparse", "tuple"], "expm": ["dense", "sparse"]}[method]
     state = draw(s_state(ham["d"], allow_sparse=False))
-    if method == "expm":
-        state["kind"], state["rank"] = "ket", 1  # expm x density operator is finding C18-a (grid / seq_expm)
-        if state["form"] not in ("dense", "1d"):
-            state["form"] = "dense"
-    elif state["kind"] == "dop" and state["form"] == "1d":
-        state["form"] = "dense"
-    # an exactly repeated time with 'integrate' is finding C18-b (seq_integrate): strictly increasing there
-    dts = [0.02, 0.3, 0.9] if method == "integrate" else [0.0, 0.02, 0.3, 0.9]
     return {"method": method, "ham": ham, "hrep": draw(st.sampled_from(reps)), "state": state, "t0": draw(st.sampled_from([0.0, 0.7, -0.7])),
-            "dts": draw(st.lists(st.sampled_from(dts), min_size=1, max_size=4)),
+            "dts": draw(st.lists(st.sampled_from([0.0, 0.02, 0.3, 0.9]), min_size=1, max_size=4)),
             "compute": draw(st.sampled_from(["single2", "single3", "dict", "dict1"])), "small": draw(st.booleans()),
             "use_at_times": draw(st.booleans()), "progbar": draw(st.sampled_from([False, False, True]))}
 
@@ -907,14 +1096,16 @@ def run_callbacks(case):
     t0 = float(case["t0"])
     hrep = case["hrep"]
     meth = "solve" if hrep == "tuple" else m
-    info = dict(method=m, state=sd["kind"], sform=sd["form"], hrep=hrep, d=d, cb=case["compute"])
+    sl, hl = layout_labels(sd, hd, hrep)
+    info = dict(method=m, state=sd["kind"], sform=sd["form"], hrep=hrep, d=d, cb=case["compute"], slayout=sl, hlayout=hl)
+    sobj, p0 = state_object(p0, sd, Hd, t0)
     ctx = Ctx(Hd, p0, t0, meth, info)
     rec = Recorder(case["compute"])
-    ham = make_ham(Hd, hrep, real_dtype=bool(hd.get("real_dtype")))
+    ham = make_ham(Hd, hrep, **ham_kwargs(hd, m, hrep))
     kw = {"int_small_step": True} if (m == "integrate" and case["small"]) else {}
     if case.get("progbar"):
         kw["progbar"] = True
-    evo = qu.Evolution(make_state(p0, sd["form"]), ham, t0=t0, method=m, compute=rec.compute(), **kw)
+    evo = qu.Evolution(sobj, ham, t0=t0, method=m, compute=rec.compute(), **kw)
     ents = rec.entries(evo.results)
     if ents:
         raise Violation("results-count", got=len(ents), want=0, at="construction", **info)
@@ -935,6 +1126,7 @@ def run_callbacks(case):
             last = check_entries(ctx, rec, new, lo, t, ham)
             if t > lo and (last is None or abs(last - t) > T_TOL * max(1.0, abs(t))):
                 raise Violation("results-miss-requested-time", got=last, want=t, **info)
+            ctx.check_time(evo.t, t)
         else:
             check_entries(ctx, rec, new, lo, t, ham, exact_times=[t])
             # the callback was shown the state that is now reported
@@ -942,7 +1134,8 @@ def run_callbacks(case):
             if rel_err(shown, to_dense(evo.pt), floor=ctx.n0) > 1e-14:
                 raise Violation("results-not-reported-state", **info)
         lo = t
-    return {"nt": True, "cls": [f"m={m}", f"cb={case['compute']}", f"h={hrep}", f"s={sd['kind']}", "at_times" if it is not None else "update_to"]
+    return {"nt": True, "cls": [f"m={m}", f"cb={case['compute']}", f"h={hrep}", f"s={sd['kind']}", f"sl={sl}", f"hl={hl}",
+                                "at_times" if it is not None else "update_to"]
             + (["progbar"] if case.get("progbar") else []),
             "err": ctx.err()}
 
@@ -974,7 +1167,9 @@ def run_int_stop(case):
     p0 = dense_state(sd, d)
     t0, T = float(case["t0"]), float(case["T"])
     thr = t0 + float(case["thr"]) * T
-    info = dict(method=m, state=sd["kind"], sform=sd["form"], hrep=case["hrep"], d=d, nargs=case["nargs"])
+    sl, hl = layout_labels(sd, hd, case["hrep"])
+    info = dict(method=m, state=sd["kind"], sform=sd["form"], hrep=case["hrep"], d=d, nargs=case["nargs"], slayout=sl, hlayout=hl)
+    sobj, p0 = state_object(p0, sd, Hd, t0)
     ctx = Ctx(Hd, p0, t0, "integrate", info)
     calls = []
 
@@ -996,17 +1191,17 @@ def run_int_stop(case):
     kw = {}
     if rec.compute() is not None:
         kw["compute"] = rec.compute()
-    ham = make_ham(Hd, case["hrep"])
+    ham = make_ham(Hd, case["hrep"], **ham_kwargs(hd, m, case["hrep"]))
     if case.get("progbar"):
         kw["progbar"] = True
     if m != "integrate":
         # documented: int_stop is only for 'integrate'
         try:
-            qu.Evolution(make_state(p0, sd["form"]), ham, t0=t0, method=m, int_stop=stop, **kw)
+            qu.Evolution(sobj, ham, t0=t0, method=m, int_stop=stop, **kw)
         except ValueError:
             return {"nt": False, "cls": ["non-integrate-rejected"], "err": 0.0}
         raise Violation("int-stop-accepted", **info)
-    evo = qu.Evolution(make_state(p0, sd["form"]), ham, t0=t0, method=m, int_stop=stop, int_small_step=bool(case["small"]), **kw)
+    evo = qu.Evolution(sobj, ham, t0=t0, method=m, int_stop=stop, int_small_step=bool(case["small"]), **kw)
     evo.update_to(t0 + T)
     te = float(evo.t)
     if not calls:
@@ -1030,7 +1225,7 @@ def run_int_stop(case):
             raise Violation("results-miss-final-time", got=last, want=te, **info)
     early = stopping and te < t0 + T - 1e-9
     return {"nt": True, "cls": ["stopped-early" if early else ("stopped-at-end" if stopping else "ran-through"), f"nargs={case['nargs']}",
-                                f"ret={case['ret']}", f"cb={case['compute']}", f"h={case['hrep']}", f"s={sd['kind']}"]
+                                f"ret={case['ret']}", f"cb={case['compute']}", f"h={case['hrep']}", f"s={sd['kind']}", f"sl={sl}", f"hl={hl}"]
             + (["progbar"] if case.get("progbar") else []), "err": ctx.err()}
 
 
@@ -1040,6 +1235,13 @@ SUBCHECKS = [
                   "Hamiltonian(8: dense, csr, csc, (evals,evecs), LinearOperator dense/sparse, callable dense/sparse) x t0(0,+-0.7) x "
                   "4 instances (d=4,3,6,2; update_to with repeat, non-uniform update_to, at_times; non-monotonic for solve): raise at "
                   "construction/first update or match the oracle at every time; documented-supported cells must be accepted; nt: accepted cell"),
+    SubCheck("layouts", run_layouts, enum=enum_layouts, exhaustive=True, shards=(3, 8),
+             rule="every cell of method(4) x ket/dop x state container (dense row major, column major, .H view, .T view, strided view, "
+                  "negative strides as qarray; C/F/strided plain ndarray; sparse csr/csc/coo/bsr; the pt of an earlier solve / expm / "
+                  "integrate stretch; 1-d C/strided/reversed) x Hamiltonian container (dense in the 6 layouts, F/strided ndarray, "
+                  "csr/csc/coo/bsr, (evals,evecs) with F/strided evecs, LinearOperator and callable over F/strided/.H arrays) x t0(0,0.7), "
+                  "complex H and state: reject or match the oracle built from the entries at 4 times incl. a repeat and at_times; "
+                  "nt: accepted cell with non-real entries"),
     SubCheck("seq_solve", machine=machine("solve"), examples=(200, 2500), shards=(1, 4),
              rule="history machine on method='solve' (dense/csr/csc/pre-diagonalised): update_to at arbitrary (non-monotonic, repeated) times, "
                   "at_times with partial consumption; after each request evo.t, evo.pt, new results entries, norm/trace, purity, energy; "
